@@ -151,8 +151,8 @@ def main(tier, seed):
     rep = Report("C03", tier, seed)
     rng = random.Random(seed)
     if standard_build(rep, "C03", need_numlib=True):
-        n = 900 if tier == "quick" else 20000
-        nrun = 220 if tier == "quick" else 4000
+        n = 900 if tier == "quick" else 12000
+        nrun = 220 if tier == "quick" else 2500
         progs = list(CORPUS) + cat_progs()
         for k in range(n):
             r = rng.random()
